@@ -86,6 +86,30 @@ pub fn run(ctx: &mut Ctx, _replay: Option<&[String]>) {
             }
         }
     }
+    // (i-b) bookkeeping of BerTest::new on a sweep of (n_cw, pattern): every pattern length <= 12 dividing n_cw, any number of kept blocks
+    // (quotients n_cw / (len/trues) that land just below an integer in floating point are the interesting ones)
+    for ncw in (4..=72usize).step_by(1) {
+        if !ctx.thorough && ncw % 3 != 0 && ncw % 5 != 0 && ncw % 7 != 0 && ncw % 11 != 0 { continue; }
+        let r = (ncw / 3).max(1);
+        let h = staircase_h(&mut rng, r, ncw);
+        for plen in 2..=12usize {
+            if ncw % plen != 0 { continue; }
+            for trues in 1..=plen {
+                let mut p: Vec<bool> = (0..plen).map(|i| i < trues).collect();
+                for i in (1..plen).rev() { p.swap(i, rng.below(i + 1)); }
+                let fac = Scripted {
+                    counter: Arc::new(AtomicU64::new(0)), log: Arc::new(Mutex::new(Vec::new())), log_limit: 0,
+                    panic_every: 0, built: Arc::new(AtomicU64::new(0)), seed: 0,
+                };
+                let t = BerTestBuilder {
+                    h: h.clone(), decoder_implementation: fac, modulation: Modulation::Bpsk, puncturing_pattern: Some(&p),
+                    interleaving_columns: None, max_frame_errors: 1, max_iterations: 1, ebn0s_db: &[1.0], reporter: None, bch_max_errors: 0,
+                }.build().unwrap();
+                ctx.emit(&format!("c12 chain {} B {} 0", sm(&h), bools(p.iter().copied())),
+                    &format!("{} {} {} {}", t.n(), t.n_cw(), t.k(), hx(t.rate())), trues < plen, &["frame-size-bookkeeping-sweep"]);
+            }
+        }
+    }
     // (ii) channel noise statistics, BPSK, Eb/N0 where hard-decision errors are negligible but noise is far above rounding
     let h = crate::c13::test_matrix();
     let (ncw, k) = (12usize, 8usize);
